@@ -18,7 +18,7 @@ the model uses for byte 0 (Theo::scan itself can never deliver one: it passes c_
 Not modelled: flex buffer management (yy_get_next_buffer, refill, allocation); end of input is modelled as
 "yy_find_action on the state reached / back up to the last accepting position" and validated natively.
 """
-import concurrent.futures, hashlib, json, os, re, resource, shutil, subprocess, sys, time
+import itertools, concurrent.futures, hashlib, json, os, re, resource, shutil, subprocess, sys, time
 from collections import deque
 
 VERIF = os.path.dirname(os.path.dirname(os.path.abspath(__file__)))
@@ -1324,12 +1324,42 @@ def run_all(tier='quick', wd=None, seed=0, repo=None, spec=SPEC, lex_c=None, lex
         _run(res, tier, wd, seed, repo, spec, lex_c, lexer_l, cap, P, say)
     except Unsupported as e:
         res['inconclusive'].append('encoder: ' + str(e))
+        # the tables / rules use a flex construct the encoder does not cover (e.g. trailing context): no solver verdict.  The real scanner(s) are still
+        # compared natively with the fixed specification on the corpus and on every string of <= 4 bytes over a small alphabet; a difference found
+        # this way reproduces by construction and is reported (as what it is: testing, not a solver result).
+        try:
+            _fallback_native(res, tier, wd, seed, repo, spec, lex_c, lexer_l, P)
+        except Exception as ex:
+            res['notes'].append('native fallback not possible: %s' % str(ex)[:200])
     finally:
         res['max_rss'] = resource.getrusage(resource.RUSAGE_CHILDREN).ru_maxrss // 1024
         if own_wd:
             shutil.rmtree(wd, ignore_errors=True)
     res['wall_s'] = round(time.time() - t_start, 1)
     return res
+
+
+def _fallback_native(res, tier, wd, seed, repo, spec, lex_c, lexer_l, P):
+    S_d = compile_spec(spec); enum = token_enum(P['token_hpp'])
+    exes = {'committed': build_native(wd, 'committed', lex_c, repo)}
+    if shutil.which('flex'):
+        gen = run_flex(lexer_l, wd)
+        exes['regenerated'] = build_native(wd, 'regenerated', gen[0], repo, gen[1])
+    alpha = [b'a', b'1', b' ', b'\n', b'/', b'"', b':', b'=']
+    short = [b''.join(t) for n in range(0, 5) for t in itertools.product(alpha, repeat=n)]
+    strings = corpus(repo, seed, 300 if tier == 'quick' else 3000) + short
+    seen = 0
+    for impl, exe in exes.items():
+        native = run_native(exe, strings, enum, wd, impl)
+        for s_, nt in zip(strings, native):
+            rt = cstr_view(ref_tokens(S_d, s_), s_)
+            if rt != nt:
+                seen += 1
+                if seen <= 3:
+                    res['violations'].append({'config': impl, 'comparison': 'corpus_vs_spec', 'origin': 'native comparison after an unsupported scanner construct (testing, not a solver result)',
+                                              'input': list(s_), 'expected': tok_json(rt), 'got': tok_json(nt),
+                                              'assertion': 'corpus_vs_spec: on %r expected %s but the %s scanner yields %s' % (s_[:30], tok_str(rt)[:120], impl, tok_str(nt)[:120])})
+    res['coverage']['native_fallback'] = {'strings': len(strings), 'scanners': sorted(exes), 'differences': seen}
 
 
 def _run(res, tier, wd, seed, repo, spec, lex_c, lexer_l, cap, P, say):
